@@ -269,4 +269,79 @@ def locatePrefix (d : D) (q : Str) : Option (Nat × Nat) :=
           | _, _ => none
     | _, _ => none
 
+/-! ### string iterator (`IteratorDictStringRPFC`) -/
+
+/-- Iterator state. The byte pointer of the C++ is the pair (`nextBucket`, `st`): `st` holds the symbols of the
+current bucket not yet read and `nextBucket` is the bucket whose header follows them. The iterator finds that
+header by skipping to the next byte boundary behind the last symbol it read, so it is where the positional
+index says only if the bucket's symbols have been read to the last one: the model reports a bucket change
+with symbols left (`st ≠ []`) as a fault. -/
+structure SIter where
+  nextBucket : Nat
+  pos : Nat
+  st : List Nat
+  cur : Str
+  processed : Nat
+  scanneable : Nat
+
+def SIter.hasNext (it : SIter) : Bool := it.processed < it.scanneable
+
+/-- `IteratorDictStringRPFC::next`. -/
+def iterNext (d : D) (it : SIter) : Option (Str × SIter) :=
+  if it.pos % d.bucketsize = 0 then
+    if it.st ≠ [] then none else
+    match header d it.nextBucket, stream d it.nextBucket with
+    | some h, some σ =>
+      some (h, { it with nextBucket := it.nextBucket + 1, pos := 1, st := σ, cur := h, processed := it.processed + 1 })
+    | _, _ => none
+  else
+    match decodeString d it.cur it.st with
+    | none => none
+    | some (_, s, st') => some (s, { it with pos := it.pos + 1, st := st', cur := s, processed := it.processed + 1 })
+
+def drain (d : D) : Nat → SIter → Option (List Str)
+  | 0, _ => some []
+  | fuel + 1, it =>
+    if it.hasNext then
+      match iterNext d it with
+      | none => none
+      | some (s, it') =>
+        match drain d fuel it' with
+        | some l => some (s :: l)
+        | none => none
+    else some []
+
+/-- The constructor with `offset` strings to discard, positioned on bucket `k`. -/
+def iterOpen (d : D) (k offset scanneable : Nat) : Option SIter :=
+  if offset > 0 then
+    match header d k, stream d k with
+    | some h, some σ =>
+      match decodeSteps d (offset - 1) h σ with
+      | none => none
+      | some (cur, σ') => some { nextBucket := k + 1, pos := offset, st := σ', cur := cur, processed := 0, scanneable := scanneable }
+    | _, _ => none
+  else some { nextBucket := k, pos := 0, st := [], cur := [], processed := 0, scanneable := scanneable }
+
+/-- The string iterator over the ID range `[left, right]`, drained. -/
+def scanRange (d : D) (left right : Nat) : Option (List Str) :=
+  match iterOpen d (1 + (left - 1) / d.bucketsize) ((left - 1) % d.bucketsize) (right - left + 1) with
+  | none => none
+  | some it => drain d d.elements it
+
+/-- `extractTable()`. -/
+def extractTable (d : D) : Option (List Str) :=
+  match iterOpen d 1 0 d.elements with
+  | none => none
+  | some it => drain d d.elements it
+
+/-- `extractPrefix`: `some none` = NULL. -/
+def extractPrefix (d : D) (q : Str) : Option (Option (List Str)) :=
+  match locatePrefix d q with
+  | none => none
+  | some (left, right) =>
+    if left = 0 then some none
+    else match scanRange d left right with
+      | none => none
+      | some l => some (some l)
+
 end CSD.RPFC
